@@ -105,7 +105,7 @@ impl<'a> Token<'a> {
         if escaped {
             return Err(EncodingError {
                 offset: s.len(),
-                source: InvalidEncoding::Slash,
+                source: InvalidEncoding::Tilde,
             });
         }
         Ok(Self { inner: s.into() })
